@@ -1,6 +1,6 @@
 """C16 — `incan test` reports the truth.
 
-proof:   coq/C16/Props.v (13 theorems over all test lists / file trees / raw-verdict functions).
+proof:   coq/C16/Props.v (17 theorems over all test lists / file trees / raw-verdict functions).
 tie:     hand model C16/Model.v vs the REAL runner driven end to end: vharness re-executes itself as
          the `incan` binary (clap parsing -> cli::execute -> test_runner::run_tests ->
          run_single_test -> `cargo test`) on generated trees of test files with a stub `cargo`
@@ -566,6 +566,11 @@ def self_consistency(r, log, stop):
 # harness truth with the real cargo
 
 TRUTH_IMPORT = "from testing import assert_eq, assert_true, fail\n"
+# cargo-level failures that say nothing about the property (registry/network/disk), as opposed to
+# compile errors of the generated code, which ARE the runner's business
+INFRA_PATTERNS = ["could not resolve host", "failed to download", "failed to get `", "no matching package named",
+                  "failed to load source for dependency", "no space left on device", "failed to query replaced source",
+                  "failed to open:", "Failed to run test:"]
 
 
 def truth_files(tier):
@@ -638,8 +643,10 @@ def run_truth(chk, binary, res):
         if "infra" in o:
             raise vlib.Infra("c16 real-cargo run: " + o["infra"])
         r = parse_run(o)
-        if "could not resolve" in (o.get("stdout", "") + o.get("stderr", "")).lower() or "failed to download" in o.get("stdout", ""):
-            raise vlib.Infra("real cargo could not build the generated test project offline:\n" + o.get("stdout", "")[-1500:])
+        blob = o.get("stdout", "") + o.get("stderr", "")
+        for pat in INFRA_PATTERNS:
+            if pat.lower() in blob.lower():
+                raise vlib.Infra("real cargo could not build the generated test project (%s):\n%s" % (pat, blob[-1500:]))
         want = truth_expected(f, truth)
         got = r["lines"]
         want_exit = 1 if any(l[2] in (1, 4) for l in want) else 0
@@ -776,7 +783,7 @@ def run(chk):
     res = chk.proof_stage("C16", allow_axioms=())
     binary = vlib.build_harness("debug")
 
-    n_rand = 150 if chk.tier == "quick" else 4000
+    n_rand = 150 if chk.tier == "quick" else 1500
     cases = fixed_cases()
     for _ in range(n_rand):
         cases.append(gen_case(chk.rng, len(cases)))
@@ -798,6 +805,8 @@ def run(chk):
     # ---- public discovery API
     dout = vlib.run_harness(binary, ["run", "c16", "discover"], "\n".join(case_json(c) for c in cases) + "\n", timeout=3000)
     douts = [json.loads(l) for l in dout.split("\n") if l.strip()]
+    if len(douts) != len(cases):
+        raise vlib.Infra("harness (discover) returned %d lines for %d cases" % (len(douts), len(cases)))
 
     vlib.log("[c16] discovery API in %.1fs" % (time.time() - t0))
     t0 = time.time()
@@ -843,7 +852,8 @@ def run(chk):
             dist["harness_test_attrs"][k] = dist["harness_test_attrs"].get(k, 0) + 1
             runs_body_stub.add(bool(h["selected_is_test"] or h["calls_selected"]))
         chk.count_case((case_args(c), case_json(c)), nontrivial=(r["kind"] == 2))
-        detail = {"case_id": i, "args": case_args(c), "files": json.loads(case_json(c))["files"], "script": c["script"], "default": c["default"]}
+        detail = {"case_id": i, "args": case_args(c), "files": json.loads(case_json(c))["files"], "script": c["script"], "default": c["default"],
+                  "model_term": coq_case(c)}
         # (1) oracle: documented rules + self-consistency of the printed report
         why = self_consistency(r, log, c["opts"]["stop"])
         if r["odd"]:
@@ -938,11 +948,12 @@ def run(chk):
     elif model_ok and len(runs_body_seen) > 1:
         corr_bad.append({"model_vs_impl": [("generated harnesses disagree on whether the selected body is executed", None, sorted(runs_body_seen))]})
 
-    listed = [f for f in chk.findings if f.get("status") == "known" and f.get("id") == FINDING_ID]
+    listed = [f for f in chk.findings if f.get("status") == "known" and
+              (f.get("id") == FINDING_ID or str(f.get("class", "")).startswith("Known_C16_body_never_run"))]
     if known_cases:
         if listed:
             w = known_cases[0]
-            chk.known(FINDING_ID, "%s: %s" % (FINDING_ID, listed[0].get("summary", "a test whose body fails is reported PASSED")))
+            chk.known(listed[0].get("id", FINDING_ID), "%s: %s" % (listed[0].get("id", FINDING_ID), listed[0].get("summary", "a test whose body fails is reported PASSED")))
             chk.coverage["known_finding_witness_replayed"] = known_cases[:6]
         else:
             for k in known_cases[:5]:
@@ -971,6 +982,13 @@ def replay(path):
             print(o.get("stdout", ""))
             print(o.get("stderr", ""))
             print("cargo log:", o.get("log"))
+            r = parse_run(o)
+            print("implementation (canonical):", json.dumps({k: r[k] for k in ("kind", "exit", "collected", "lines", "counts")}, default=str))
+            if d.get("model_term") and vlib.coq_build(["C16/Model.vo"])[0]:
+                ty = "option node * opts * list (str * str * bool) * bool"
+                mv = vlib.coq_eval(COQ_REQ, ty, "fun c => let '(t, o, tb, d) := c in run_case t o tb d", [d["model_term"]], tag="c16replay", extra_defs=COQ_DEFS)
+                m = model_view(mv[0])
+                print("model (C16/Model.v run_case):", json.dumps({k: m[k] for k in ("kind", "exit", "collected", "lines", "counts", "executed")}, default=str))
             print("expected (documented rules / model):", json.dumps(d.get("expected") or d.get("model_vs_impl"), indent=1, default=str))
             print("why:", d.get("why"))
         elif "source" in d:
